@@ -441,6 +441,32 @@ func (node *TopNode) resolveMerge(binding *syntax.MergeExp, t syntax.Type,
 
 // getParts returns the ForkSourcePart corresponding the the given call for
 // every fork of the given node which matches the given fork ID.
+// findForkingSubnode searches the nodes below a pipeline node, in a
+// deterministic order, for one which forks over the given call.
+func findForkingSubnode(n *Node, src *syntax.CallStm) *Node {
+	if len(n.subnodes) == 0 {
+		return nil
+	}
+	names := make([]string, 0, len(n.subnodes))
+	for name := range n.subnodes {
+		names = append(names, name)
+	}
+	sort.Strings(names)
+	for _, name := range names {
+		sub := n.subnodes[name].getNode()
+		sub.expandForks(true)
+		if len(sub.forkIds.Table[src]) > 0 {
+			return sub
+		}
+	}
+	for _, name := range names {
+		if r := findForkingSubnode(n.subnodes[name].getNode(), src); r != nil {
+			return r
+		}
+	}
+	return nil
+}
+
 func (node *TopNode) getParts(src *syntax.CallStm,
 	forkId ForkId,
 	id string) ([]*ForkSourcePart, syntax.ErrorList) {
@@ -451,6 +477,16 @@ func (node *TopNode) getParts(src *syntax.CallStm,
 	boundNode.expandForks(true)
 	var errs syntax.ErrorList
 	parts := boundNode.forkIds.Table[src]
+	if len(parts) == 0 && !src.KnownLength() {
+		// A pipeline node only forks over the calls which its outputs
+		// are still split over.  If a merge over an enclosing call was
+		// resolved statically, it may not fork over src even though
+		// the nodes inside it do.
+		if sub := findForkingSubnode(boundNode, src); sub != nil {
+			boundNode = sub
+			parts = boundNode.forkIds.Table[src]
+		}
+	}
 	if len(parts) == 1 && parts[0].Id.IndexSource() != nil &&
 		(parts[0].Range == nil || parts[0].Range.Length() >= 0) {
 		matchingParts := make([]*ForkSourcePart, 0, len(boundNode.forks))
